@@ -15,7 +15,7 @@ from harness import drivers
 # ------------------------------------------------------------------------------------------
 # case generation
 
-STRATA = ['small', 'small', 'small', 'as', 'as_nested', 'fusion', 'fusion_var', 'circ', 'circ_var', 'multi']
+STRATA = ['small', 'small', 'small', 'as', 'as_nested', 'fusion', 'fusion_var', 'circ', 'circ_var', 'multi', 'sec']
 
 
 def gen_config(rng, stratum, light=False):
@@ -89,6 +89,31 @@ def _mk_small(rng, c, spec, n_genes=1, isoforms=(1, 1)):
         c.files = [('v1.gvf', 'gSNP', vs[:k]), ('v2.gvf', 'gINDEL', vs[k:])]
     else:
         c.files = [('v1.gvf', 'gSNP', vs)]
+    return True
+
+
+def _mk_sec(rng, c, spec):
+    """Selenoprotein with 1-3 Sec codons; records clustered tightly around the Sec codons; SECT mostly on."""
+    c.ref = refgen.make_reference(rng, n_genes=1, coding_p=1.0, sec_p=1.0, nf_p=0.1, min_exons=1, max_exons=4,
+                                  exon_len=(40, 140))
+    tx = c.ref.genes[0].txs[0]
+    if not tx.coding or not tx.sec:
+        return False
+    draw = rng.random() < 0.75
+    if 'sect' not in (spec.get('cfg') or {}):
+        c.cfg['sect'] = draw
+    vs = {}
+    for _ in range(rng.randint(1, 5)):
+        sc = rng.choice(tx.sec)
+        t = sc + rng.choice([-1, -1, -2, -3, -4, 0, 1, 2, 3, 4, -6, 6, -9, rng.randint(-30, 30)])
+        if not 0 <= t < tx.tx_len():
+            continue
+        v = gvfgen.rand_small(rng, c.ref, tx, tx.tx2gene(t), max_indel=3, snv_p=0.6, mnv_p=0.1)
+        if v is not None:
+            vs[v.id] = v
+    if not vs:
+        return False
+    c.files = [('v1.gvf', 'gSNP', sorted(vs.values(), key=lambda v: (v.gstart, v.gend, v.alt)))]
     return True
 
 
